@@ -44,6 +44,12 @@ type kTr struct {
 	sigs    map[string]*kSig // functions already translated (callable as gen_<name>)
 	consts  map[string]string // package-level untyped integer constants given by a literal or 1 << n
 	err     string
+	// kernels2: structs with pointer / nested fields (Active, ...): field name -> type expression; the scalar leaves a
+	// function reads through a pointer parameter become parameters of the generated term, named by their path
+	deep     map[string]map[string]ast.Expr
+	lazy     []kField
+	lazySeen map[string]bool
+	ptrParam map[string]bool
 }
 
 type kEnv struct {
@@ -84,6 +90,11 @@ func kType(x ast.Expr) string {
 			return "bool"
 		default:
 			return "S:" + id.Name
+		}
+	}
+	if st, ok := x.(*ast.StarExpr); ok {
+		if id, ok := st.X.(*ast.Ident); ok {
+			return "P:" + id.Name
 		}
 	}
 	return "?"
@@ -203,6 +214,9 @@ func (t *kTr) expr(x ast.Expr, env kEnv, want string) (string, string) {
 			return t.constTo(c, false, want)
 		}
 	case *ast.SelectorExpr:
+		if v, ty, ok := t.deepSel(e, env); ok {
+			return v, ty
+		}
 		if id, ok := e.X.(*ast.Ident); ok {
 			if id.Name == "math" && e.Sel.Name == "MaxInt64" {
 				return "maxint64", "i64"
@@ -370,6 +384,31 @@ func (t *kTr) binary(e *ast.BinaryExpr, env kEnv, want string) (string, string) 
 	}
 	a, at = t.resolve(a, at, bt)
 	b, bt = t.resolve(b, bt, at)
+	if strings.HasPrefix(at, "S:") && at == bt && (e.Op == token.EQL || e.Op == token.NEQ) {
+		// struct comparison: field by field
+		fs := t.structs[at[2:]]
+		var cs []string
+		for i, f := range fs {
+			x, y := proj(a, i, len(fs)), proj(b, i, len(fs))
+			switch {
+			case isInt(f.typ) || f.typ == "u64":
+				cs = append(cs, "("+x+" =? "+y+")")
+			case f.typ == "f64":
+				cs = append(cs, "(Qeq_bool "+x+" "+y+")")
+			default:
+				return t.fail("comparison of struct field of type %s", f.typ)
+			}
+		}
+		c := "(" + strings.Join(cs, " && ") + ")"
+		if e.Op == token.NEQ {
+			c = "(negb " + c + ")"
+		}
+		return c, "bool"
+	}
+	if (e.Op == token.QUO || e.Op == token.REM) && isInt(at) && isInt(bt) {
+		op := map[token.Token]string{token.QUO: "quot64", token.REM: "rem64"}[e.Op]
+		return "(" + op + " " + a + " " + b + ")", at
+	}
 	if at != bt && !(isInt(at) && isInt(bt)) {
 		return t.fail("operands of %s have types %s and %s", e.Op, at, bt)
 	}
@@ -390,6 +429,10 @@ func (t *kTr) binary(e *ast.BinaryExpr, env kEnv, want string) (string, string) 
 		}
 		return "(" + op + " " + a + " " + b + ")", ty
 	case token.AND, token.OR:
+		if isInt(ty) && e.Op == token.AND {
+			// two's complement AND on int: Z.land agrees with it on the whole int64 range
+			return "(Z.land " + a + " " + b + ")", ty
+		}
 		if ty != "u64" {
 			return t.fail("bitwise operator at type %s", ty)
 		}
@@ -455,6 +498,52 @@ func (t *kTr) call(e *ast.CallExpr, env kEnv, want string) (string, string) {
 				return "(Qabs " + v + ")", "f64"
 			}
 			return t.fail("math.Abs at type %s", ty)
+		}
+		if p, ok := s.X.(*ast.Ident); ok && p.Name == "math" && s.Sel.Name == "Round" {
+			v, ty := t.expr(e.Args[0], env, "f64")
+			if ty == "f64" {
+				return "(fround " + v + ")", "f64"
+			}
+			return t.fail("math.Round at type %s", ty)
+		}
+	}
+	if id, ok := e.Fun.(*ast.Ident); ok && (id.Name == "max" || id.Name == "min") && len(e.Args) == 2 && t.decls[id.Name] == nil {
+		a, at := t.expr(e.Args[0], env, want)
+		b, bt := t.expr(e.Args[1], env, want)
+		a, at = t.resolve(a, at, bt)
+		b, bt = t.resolve(b, bt, at)
+		if isInt(at) && isInt(bt) {
+			return "(Z." + id.Name + " " + a + " " + b + ")", at
+		}
+		return t.fail("%s at types %s, %s", id.Name, at, bt)
+	}
+	if id, ok := e.Fun.(*ast.Ident); ok && id.Name == "absInt" && len(e.Args) == 1 {
+		// generics.go:absInt — inlined from its own body at the argument's type
+		fn := t.decls["absInt"]
+		if fn == nil || len(fn.Type.Params.List) != 1 || len(fn.Type.Params.List[0].Names) != 1 {
+			return t.fail("absInt: unexpected shape")
+		}
+		v, ty := t.expr(e.Args[0], env, want)
+		v, ty = t.resolve(v, ty, want)
+		if ty != "f64" && !isInt(ty) {
+			return t.fail("absInt at type %s", ty)
+		}
+		pn := fn.Type.Params.List[0].Names[0].Name
+		inner := kEnv{map[string]string{pn: v}, map[string]string{pn: ty}}
+		term := t.stmts(fn.Body.List, inner, []string{ty}, func(kEnv) string { t.fail("absInt: a path does not end in a return"); return "ERR" })
+		return term, ty
+	}
+	if s, ok := e.Fun.(*ast.SelectorExpr); ok {
+		// method call on a flat struct value: p1.Equals(p2) -> gen_Point64_Equals p1 p2
+		if p, ok := s.X.(*ast.Ident); ok && strings.HasPrefix(env.typ[p.Name], "S:") {
+			mn := env.typ[p.Name][2:] + "_" + s.Sel.Name
+			if sig, ok := t.sigs[mn]; ok && len(sig.results) == 1 {
+				as := t.args(append([]ast.Expr{s.X}, e.Args...), sig, env)
+				if t.err != "" {
+					return "ERR", "err"
+				}
+				return "(gen_" + mn + " " + strings.Join(as, " ") + ")", sig.results[0]
+			}
 		}
 	}
 	id, ok := e.Fun.(*ast.Ident)
@@ -576,6 +665,20 @@ func (t *kTr) stmts(list []ast.Stmt, env kEnv, results []string, k func(kEnv) st
 	cont := func(e kEnv) string { return t.stmts(rest, e, results, k) }
 	switch s := list[0].(type) {
 	case *ast.ReturnStmt:
+		if len(s.Results) == 1 && len(results) > 1 {
+			// return f(...) where f has the same result list
+			if ce, ok := s.Results[0].(*ast.CallExpr); ok {
+				if id, ok := ce.Fun.(*ast.Ident); ok {
+					if sig, ok := t.sigs[id.Name]; ok && strings.Join(sig.results, ",") == strings.Join(results, ",") {
+						as := t.args(ce.Args, sig, env)
+						if t.err != "" {
+							return "ERR"
+						}
+						return "(gen_" + id.Name + " " + strings.Join(as, " ") + ")"
+					}
+				}
+			}
+		}
 		if len(s.Results) != len(results) {
 			t.fail("return with %d results", len(s.Results))
 			return "ERR"
@@ -673,7 +776,7 @@ func (t *kTr) stmts(list []ast.Stmt, env kEnv, results []string, k func(kEnv) st
 			if ok {
 				sty = env.typ[id.Name]
 			}
-			if !strings.HasPrefix(sty, "S:") {
+			if !strings.HasPrefix(sty, "S:") || (ok && t.ptrParam[id.Name]) {
 				t.fail("assignment to a field of a non-local")
 				return "ERR"
 			}
@@ -750,8 +853,26 @@ func assigned(list []ast.Stmt, out map[string]bool) {
 
 func (t *kTr) params(fn *ast.FuncDecl, env kEnv) []kField {
 	var ps []kField
-	for _, f := range fn.Type.Params.List {
+	t.lazy, t.lazySeen, t.ptrParam = nil, map[string]bool{}, map[string]bool{}
+	fields := fn.Type.Params.List
+	if fn.Recv != nil {
+		fields = append(append([]*ast.Field{}, fn.Recv.List...), fields...)
+	}
+	for _, f := range fields {
 		ty := kType(f.Type)
+		if strings.HasPrefix(ty, "P:") {
+			if _, ok := t.structs[ty[2:]]; ok {
+				ty = "S:" + ty[2:]
+				for _, nm := range f.Names {
+					t.ptrParam[nm.Name] = true
+				}
+			} else if _, ok := t.deep[ty[2:]]; ok {
+				for _, nm := range f.Names {
+					env.typ[nm.Name] = "D:" + ty[2:]
+				}
+				continue
+			}
+		}
 		for _, nm := range f.Names {
 			env.typ[nm.Name] = ty
 			if strings.HasPrefix(ty, "S:") {
@@ -812,8 +933,12 @@ func (t *kTr) scalar(name string, sb *strings.Builder, file string) {
 	for _, r := range results {
 		rts = append(rts, coqType(r, t))
 	}
+	sort.Slice(t.lazy, func(i, j int) bool { return t.lazy[i].name < t.lazy[j].name })
+	ps = append(ps, t.lazy...)
 	fmt.Fprintf(sb, "(* %s:%s *)\nDefinition gen_%s %s : %s :=\n  %s.\n\n", file, name, name, t.paramList(ps), strings.Join(rts, " * "), term)
-	t.sigs[name] = &kSig{params: ps, results: results}
+	if len(t.lazy) == 0 {
+		t.sigs[name] = &kSig{params: ps, results: results}
+	}
 }
 
 // loop function of the shape  <guards and initialisation> ; for _, pt := range <path param> { body } ; <tail>
